@@ -9,7 +9,9 @@
 (*           holds t, applied via State.Walk / State.PlayAndRepost: res and the contents fl the state      *)
 (*           afterwards is consistent with (entry, pooled, nothing); same: the entry claims the pooled    *)
 (*           transaction's id; samec: it is the pooled transaction (real protobufs equal up to block id   *)
-(*           and reception time)                                                                          *)
+(*           and reception time); mh: where the entry refers to a marked transaction, the block's height   *)
+(*           is above / at / below the effective height of the mark - the judgement is by content and does   *)
+(*           not depend on it                                                                               *)
 (*   fixture : the access-control rules read back from the fixture chain                      (binding)   *)
 (*   cb    : a peer block whose coinbase transaction carries rider r is confirmed and played               *)
 (*   pair  : two structures a # b of one encoder section, concretised with position-assigned values:     *)
